@@ -401,21 +401,33 @@ def seismic_file_producer(queue, seismicfile, blockshape, store_headers,
                     queue.put(slice)
 
 
-def compressor(queue_in, queue_out, bits_per_voxel):
+def compressor(queue_in, queue_out, bits_per_voxel, errors):
     """Fetches sets of inlines and compresses them"""
     while True:
         buffer = queue_in.get()
-        compressed = zfpy.compress_numpy(buffer, rate=bits_per_voxel, write_header=False)
-        queue_out.put(compressed)
+        # After a failure the queues are still drained (nobody may be left waiting on them), the caller raises at the end
+        try:
+            if not errors:
+                compressed = zfpy.compress_numpy(buffer, rate=bits_per_voxel, write_header=False)
+                queue_out.put(compressed)
+        except Exception as e:
+            errors.append(e)
         queue_in.task_done()
 
 
-def writer(queue, out_filehandle, header):
+def writer(queue, out_filehandle, header, errors):
     """Fetches sets of compressed inlines and writes them to disk"""
-    out_filehandle.write(header)
+    try:
+        out_filehandle.write(header)
+    except Exception as e:
+        errors.append(e)
     while True:
         compressed = queue.get()
-        out_filehandle.write(compressed)
+        try:
+            if not errors:
+                out_filehandle.write(compressed)
+        except Exception as e:
+            errors.append(e)
         queue.task_done()
 
 
@@ -431,8 +443,9 @@ def run_conversion_loop(source, out_filehandle, bits_per_voxel, blockshape,
     writing_queue = Queue(maxsize=queue_size)
     # schedule the consumer
     hash_object = hashlib.new('sha1')
-    t_compress = Thread(target=compressor, args=(compression_queue, writing_queue, bits_per_voxel))
-    t_write = Thread(target=writer, args=(writing_queue, out_filehandle, header))
+    errors = []
+    t_compress = Thread(target=compressor, args=(compression_queue, writing_queue, bits_per_voxel, errors))
+    t_write = Thread(target=writer, args=(writing_queue, out_filehandle, header, errors))
     t_compress.daemon = True
     t_compress.start()
     t_write.daemon = True
@@ -449,5 +462,8 @@ def run_conversion_loop(source, out_filehandle, bits_per_voxel, blockshape,
     # wait until the consumer has processed all items
     compression_queue.join()
     writing_queue.join()
+    if errors:
+        # A worker thread failed (e.g. the output could not be written): report it instead of waiting for ever
+        raise errors[0]
     out_filehandle.flush()
     return hash_object.digest()
